@@ -1,5 +1,5 @@
 """Which units decide which property (DESIGN.md 7, appendix D.2)."""
-from . import api_ops, seam, walks, config, types_c17, pythonic, tables, wire_community, wire_v3, udp, x690_c20
+from . import api_ops, seam, walks, config, types_c17, pythonic, tables, wire_community, wire_v3, udp, x690_c20, x690_oid
 
 VC = ("contract-based deductive verification: verification conditions generated on every run from the real ASTs "
       "(symbolic execution of each function against its sidecar contract, callee contracts at the seams) and "
@@ -128,7 +128,7 @@ PROPS = {
     },
     "C03": {
         "standins": ["lean"],
-        "units": [walks.units_c03], "level": "other", "design_ref": "7.3",
+        "units": [walks.units_c03, x690_oid.units_for(("C01", "C02", "C03"))], "level": "other", "design_ref": "7.3",
         "technique": VC + "multiwalk with both fetchers against an UNCONSTRAINED agent (arbitrary bindings): inductive invariant "
                      "over ghost sets (continued-from, witnesses, revealed), variant from a finite-universe rank; roots, "
                      "repetitions and response counts enumerated",
@@ -137,7 +137,7 @@ PROPS = {
     },
     "C01": {
         "standins": ["walks-getnext", "lean"],
-        "units": [walks.units_c01], "level": "other", "design_ref": "7.1",
+        "units": [walks.units_c01, x690_oid.units_for(("C01", "C02", "C03"))], "level": "other", "design_ref": "7.1",
         "technique": VC + "multiwalk verified with an inductive loop invariant over an uninterpreted, totally ordered OID "
                      "sort (axioms Lean-checked) against an RFC 3416 agent model; database, OIDs, iteration count unbounded; "
                      "number of roots and listing order enumerated (proved-shape-bounded)",
@@ -146,7 +146,7 @@ PROPS = {
     },
     "C02": {
         "standins": ["walks-bulk", "lean"],
-        "units": [walks.units_c02], "level": "other", "design_ref": "7.2",
+        "units": [walks.units_c02, x690_oid.units_for(("C01", "C02", "C03"))], "level": "other", "design_ref": "7.2",
         "technique": VC + "multiwalk with the real bulk fetcher (closure, bulkget) under the same invariant and postcondition "
                      "as the GETNEXT walk; GETBULK agent model with every RFC-allowed cut; roots, repetitions and cuts enumerated",
         "trusted_base": ["Client._send used by its contract above the seam", "RFC 3416 agent model (environment)",
